@@ -35,11 +35,13 @@ class CoordinateShiftOperation(Barrier, ICircuitOperation):
         :param relation_transfer_lookup: Lookup table used to transfer relation link.
         :return: Copy of self with updated relation link.
         """
-        return CoordinateShiftOperation(
+        result = CoordinateShiftOperation(
             qubit_indices=self.qubit_indices,
             time_shift=self.time_shift,
             space_shift=self.space_shift,
         )
+        result.relation = self.relation.copy(relation_transfer_lookup=relation_transfer_lookup)
+        return result
     # endregion
 
     # region Class Methods
